@@ -272,7 +272,7 @@ def rustc(source, mode="bin", crate_name="probe", externs=None, edition="2021", 
             os.makedirs(os.path.dirname(final), exist_ok=True)
             os.replace(out, final)
             out = final
-        res = Compiled(ok, p.stderr[-20000:], out if ok else None, p.returncode)
+        res = Compiled(ok, (p.stderr if len(p.stderr) <= 2000000 else p.stderr[:1000000] + "\n...[truncated]...\n" + p.stderr[-1000000:]), out if ok else None, p.returncode)
         res.text = text
         if ok and mode == "bin":
             _OWN_BINS.add(out)
